@@ -186,3 +186,36 @@ Qed.
 Theorem receive_text topic s bs :
   utf8_encode s = Some bs -> entry_of (BMsg topic bs) = QLine (of_mqtt topic s).
 Proof. intros H. cbn. rewrite (utf8_roundtrip s bs H). reflexivity. Qed.
+
+(* connect(), every fault position: a failed connect leaves no receive task and has left the
+   broker client's context as often as it entered it; a successful one has the task, the
+   client and every subscription *)
+Theorem connect_no_leftover pre enter_fails sub_faults :
+  let r := mqtt_connect pre enter_fails sub_faults mc_init in
+  match snd r with
+  | ConnOk => mc_task (fst r) = true /\ mc_client (fst r) = true /\ mc_entered (fst r) = 1%Z
+              /\ mc_subs (fst r) = subscriptions pre
+              /\ enter_fails = false
+              /\ forallb negb (firstn (List.length (subscriptions pre)) sub_faults) = true
+  | ConnTransportError => mc_task (fst r) = false /\ mc_entered (fst r) = 0%Z
+  | ConnRuntimeError => False
+  end.
+Proof.
+  unfold mqtt_connect, mc_init. cbn [mc_client mc_task orb].
+  destruct enter_fails; cbn [snd fst mc_task mc_entered]; [split; reflexivity|].
+  destruct (existsb (fun b => b) (firstn (List.length (subscriptions pre)) sub_faults)) eqn:E.
+  - cbn. split; reflexivity.
+  - cbn. repeat split; try reflexivity.
+    apply forallb_forall. intros x Hx. destruct x; [|reflexivity].
+    exfalso. assert (H : existsb (fun b => b) (firstn (List.length (subscriptions pre)) sub_faults) = true).
+    { apply existsb_exists. exists true. split; [exact Hx|reflexivity]. }
+    rewrite H in E. discriminate E.
+Qed.
+
+(* connect after a successful connect and a disconnect behaves like the first connect *)
+Theorem connect_disconnect_connect pre faults :
+  let s1 := fst (mqtt_connect pre false [] mc_init) in
+  let s2 := fst (mqtt_disconnect s1) in
+  snd (mqtt_disconnect s1) = ConnOk /\ s2 = mc_init
+  /\ mqtt_connect pre false faults s2 = mqtt_connect pre false faults mc_init.
+Proof. cbn. repeat split. Qed.
